@@ -101,10 +101,14 @@ Definition pad_len (n : N) : N := (8 - n mod 8) mod 8.
 Definition entry_wf (esz : N) (e : mm_entry) : Prop :=
   e_addr e < two64 /\ e_len e < two64 /\ e_type e < two32 /\ bytes (e_tail e) /\ len (e_tail e) + 20 = esz.
 
-(** command-line characters: ASCII, not NUL *)
+(** characters of keys, values and flags: ASCII, not NUL, not white space, not '=' *)
 Definition word_char (c : N) : Prop := 0 < c /\ c < 128 /\ is_space c = false /\ c <> 61.
 Definition word (w : text) : Prop := Forall word_char w.
-Definition spaces (w : text) : Prop := Forall (fun c => is_space c = true) w.
+(** white space between entries: any sequence of white-space runes, ASCII or the UTF-8 encoding
+    of one of the other Unicode white-space code points *)
+Definition space_unit (u : text) : Prop :=
+  (exists c, u = [c] /\ is_space c = true) \/ In u unicode_spaces.
+Definition spaces (w : text) : Prop := exists us, w = concat us /\ Forall space_unit us.
 
 Definition cmd_entry_wf (e : cmd_entry) : Prop :=
   match e with
